@@ -369,7 +369,7 @@ class Port(Base):
         if operator == "gt":
             return [ports[0] - 1]
         if operator == "lt":
-            return [ports[1] + 1]
+            return [ports[-1] + 1]
         raise ValueError(f"invalid port {operator=}")
 
 
